@@ -456,6 +456,60 @@ fn ptch_drive(_s: &Seed, data: &[u8], p: &mut Probe) {
     }
 }
 
+// ---------------------------------------------------------- (attributes) / (listfile) payloads ----
+
+/// The special files' own parsers are public entry points; inside an archive their payload is usually compressed, so
+/// mutations of the archive bytes rarely reach them in a shape that decompresses. Seeds: (attributes) images from an
+/// independent encoder — every flag combination, block counts around the bit-array byte boundaries, and the three
+/// lengths real files show (exact, patch-bit array one byte short, one byte extra); aux = block count.
+fn attr_seeds(_ctx: &SeedCtx) -> Vec<Seed> {
+    let mut out = Vec::new();
+    for flags in [0u32, 1, 2, 4, 8, 3, 9, 12, 15] {
+        for bc in [1usize, 8, 9, 17, 33] {
+            for variant in ["exact", "short-1", "extra-1"] {
+                if variant == "short-1" && flags & 8 == 0 && flags != 0 {
+                    continue;
+                }
+                let mut d = Vec::new();
+                d.extend_from_slice(&100u32.to_le_bytes());
+                d.extend_from_slice(&flags.to_le_bytes());
+                if flags & 1 != 0 {
+                    for i in 0..bc { d.extend_from_slice(&(0x1000_0000u32 + i as u32 * 77).to_le_bytes()); }
+                }
+                if flags & 2 != 0 {
+                    for i in 0..bc { d.extend_from_slice(&(0x01D0_0000_0000_0000u64 + i as u64).to_le_bytes()); }
+                }
+                if flags & 4 != 0 {
+                    for i in 0..bc { d.extend_from_slice(&[i as u8 ^ 0x5A; 16]); }
+                }
+                if flags & 8 != 0 {
+                    d.extend(std::iter::repeat(0xA5u8).take(bc.div_ceil(8)));
+                }
+                match variant {
+                    "short-1" => { d.pop(); }
+                    "extra-1" => d.push(0),
+                    _ => {}
+                }
+                let hl = d.len().min(8);
+                out.push(Seed::fixed(format!("attr/flags{flags:x}-blocks{bc}-{variant}"), d, hl).with_aux(bc));
+            }
+        }
+    }
+    // a listfile image: separators, BOM, empty lines, a non-UTF-8 byte
+    out.push(Seed::fixed("attr/listfile-text", b"\xEF\xBB\xBFInterface\\Glue\\a.blp\r\nb.txt;c.txt\n\n\xFFd.m2\r\n".to_vec(), 8).with_aux(3));
+    out
+}
+
+fn attr_drive(s: &Seed, data: &[u8], p: &mut Probe) {
+    let b = bytes::Bytes::copy_from_slice(data);
+    for (entry, bc) in [("Attributes::parse", s.aux), ("Attributes::parse(blocks-1)", s.aux.saturating_sub(1)), ("Attributes::parse(blocks+1)", s.aux + 1)] {
+        if let Some(a) = p.call(entry, || wow_mpq::special_files::Attributes::parse(&b, bc)) {
+            p.call("Attributes::to_bytes", || a.to_bytes());
+        }
+    }
+    p.call("parse_listfile", || wow_mpq::special_files::parse_listfile(data));
+}
+
 fn main() {
     let formats = vec![
         FormatDef {
@@ -468,6 +522,16 @@ fn main() {
             // 16 seeds share the havoc budget of what are really six kinds of archive: give MPQ 4x the per-format default
             havoc_scale: 4.0,
             max_field_offsets: (420, 1500),
+        },
+        FormatDef {
+            name: "mpq-special",
+            family: "mpq",
+            entries: &["Attributes::parse", "Attributes::parse(blocks-1)", "Attributes::parse(blocks+1)", "Attributes::to_bytes", "parse_listfile"],
+            seeds: attr_seeds,
+            drive: attr_drive,
+            cipher: None,
+            havoc_scale: 0.5,
+            max_field_offsets: (8, 24),
         },
         FormatDef {
             name: "ptch",
